@@ -89,9 +89,12 @@ CLAIMS = {
     "C10": dict(
         text="Theorems for every base>0, offset and value: rounded-offset is on the grid; direction inequalities for up/down/nearest; "
              "error below one step; grid points are fixed points. Obligation regenerated every run: for every group and date class the "
-             "loaded specification equals the YAML entry in force incl. to_add_after_rounding and is well formed. Engine-level "
-             "'exactly once / off = identity / missing spec is an error' are tied by differential runs of the real engine (T1-T3).",
-        technique="Coq proof (Rounding.v) + reflective vm_compute obligation on regenerated YAML + differential engine runs",
+             "loaded specification equals the YAML entry in force incl. to_add_after_rounding and is well formed. 'Exactly once' on the "
+             "concrete model engine Table.sem (TableRound.v, any rule table / parameters / node): a marked rule's column with rounding on "
+             "is its unrounded column rounded cell by cell; every other node kind is computed identically with rounding on or off (derived "
+             "columns are not rounded again); a marked rule without specification is an error. The real engine is tied by differential "
+             "runs (T1-T3).",
+        technique="Coq proof (Rounding.v, TableRound.v) + reflective vm_compute obligation on regenerated YAML + differential engine runs",
         design="6/C10"),
     "C11": dict(
         text="Theorems for all columns and all id assignments (unsorted, sparse): the table entry of a group is the reduction of the "
